@@ -154,6 +154,7 @@ class UnitOutcome:
         self.hint_failures = {}  # qname -> [failure]
         self.hint_compile = {}  # qname -> set(hint tags) whose text does not compile on the current body
         self.compile_outside_hints = False
+        self.claim_compile = {}  # qname -> set(claim index) whose text does not compile on the current body
         self.undecided = {}  # qname -> reason
         self.canary_ok = {}
         self.wall = 0.0
@@ -208,6 +209,8 @@ def run_unit(unit, drop_hints=(), suffix="", mark_dropped=False):
             # a compile-level error inside OUR proof text (a hint that names a local the edited body no longer has ...)
             if ent and (ent.get("kind") or "").startswith("hint") and ent.get("fn"):
                 oc.hint_compile.setdefault(ent["fn"], set()).add(ent["kind"])
+            elif ent and (ent.get("kind") or "").startswith("claim:") and ent.get("fn"):
+                oc.claim_compile.setdefault(ent["fn"], set()).add(int(ent["kind"].split(":")[1]))
             else:
                 oc.compile_outside_hints = True
             continue
@@ -336,9 +339,14 @@ def check_property(prop, tier, units, specs, rebaseline=False, only_unit=None, s
     # proof hints that do not compile against the current body (renamed / removed local ...): re-run without them; the affected functions
     # are then proved without the hint or reported undecided, never as a violation
     for i, oc in enumerate(outcomes):
-        if oc.status == "compile-error" and oc.hint_compile and not oc.compile_outside_hints:
-            oc2 = run_unit(oc.unit, drop_hints={q: set(t) for q, t in oc.hint_compile.items()}, suffix="_nohints", mark_dropped=True)
-            lines.append("NOTE property=%s proof hint(s) of %s do not compile on the current body: re-run without them (%s)" % (prop, ", ".join(sorted(oc.hint_compile)), oc2.status))
+        if oc.status == "compile-error" and (oc.hint_compile or oc.claim_compile) and not oc.compile_outside_hints:
+            asm_mod.DROP_CLAIMS.clear()
+            asm_mod.DROP_CLAIMS.update({q: set(t) for q, t in oc.claim_compile.items()})
+            try:
+                oc2 = run_unit(oc.unit, drop_hints={q: set(t) for q, t in oc.hint_compile.items()}, suffix="_nohints", mark_dropped=True)
+            finally:
+                asm_mod.DROP_CLAIMS.clear()
+            lines.append("NOTE property=%s proof text of %s does not compile on the current body (a hint / claim names a local that is gone): re-run without it (%s)" % (prop, ", ".join(sorted(set(oc.hint_compile) | set(oc.claim_compile))), oc2.status))
             outcomes[i] = oc2
     # hint failures: re-run the unit with the FAILING hints (only those) of the affected functions removed; a hint that depended on a removed
     # one may fail in turn, hence a few rounds.  Verus assumes a failed assertion afterwards, so results below a failed hint are not trusted.
